@@ -218,6 +218,17 @@ fn check(prop: &PropDef, args: &Args) -> i32 {
     let n_corpus = cases.len();
     cases.extend((prop.generate)(args.tier, &mut rng));
     let known = args.known.as_deref().map(load_known).unwrap_or_default();
+    if prop.id == "C05" {
+        // the same histories, for the concurrency driver (celconc): `<ctx>\t<src>\u{1}<src>…`
+        let n = if args.tier == Tier::Quick { 150 } else { 3000 };
+        let mut text = String::new();
+        for c in cases.iter().filter(|c| c.kind == "history").take(n) {
+            let ctx_sx = sx::parse_all(&c.payload).first().map(|x| x.to_text()).unwrap_or_default();
+            text.push_str(&format!("{}\t{}\n", ctx_sx, c.src.clone().unwrap_or_default()));
+        }
+        let _ = std::fs::create_dir_all(&args.replay_dir);
+        let _ = std::fs::write(format!("{}/.c05-threads-{}.txt", args.replay_dir, args.seed), text);
+    }
 
     let impl_ans = impl_answers(&cases, args.jobs);
     let model_ans = match model_answers(&args.model, &mut cases, args.jobs) {
